@@ -127,6 +127,7 @@ type fakeIDP struct {
 	rawNonceFor    func(hashed string) string
 	issuedIDTokens []string
 	staleRTUse     int
+	refreshNonce   string // nonce claim to put into refreshed ID tokens of sessions the harness crafted itself
 }
 
 func newFakeIDP(clientID string) *fakeIDP {
@@ -367,6 +368,9 @@ func (p *fakeIDP) token(w http.ResponseWriter, form url.Values) {
 // nonceForRefresh: ValidateSession re-checks the nonce claim of the (refreshed) ID token
 // against the session's stored nonce, so a well-behaved IdP re-issues the original nonce.
 func (p *fakeIDP) nonceForRefresh(user idpUser) string {
+	if p.refreshNonce != "" {
+		return p.refreshNonce
+	}
 	for _, g := range p.codes {
 		if g.user.Sub == user.Sub && g.used {
 			return g.nonce
